@@ -13,6 +13,7 @@ from collections import Counter
 import common  # noqa: F401
 from props import c13_fix as F
 from props import c13_modstate as M
+from props import c13_rows as R
 from props import c13_sched as S
 from props import c13_trace as T
 
@@ -289,6 +290,12 @@ def explore(ctx, tier, search=False):
             traced_case(ctx, spec, url, kind, cases, tid=rng.randint(0, 9))
     run_correspondence(ctx, cases)
     mark("traced requests + correspondence")
+    # the maps of a served nested lazy sequence over its source records, object by object (PydapModel/RowHeap.lean):
+    # outcome, "no source object changed" and the list of stores, against the real IterData / build_filter / fix_nested
+    # on records held as tuples, lists and numpy records
+    ctx.correspond("maps over the source records of a lazy sequence (outcome; source unchanged; stores)",
+                   R.run(ctx, rng, 1200 if search else 400 if tier == "quick" else 4000))
+    mark("source-record maps")
     # (a) histories
     order = list(F.FIXED_REQUESTS)
     history_case(ctx, F.FIXED_SPEC, order, "fixed-all")
@@ -320,7 +327,8 @@ def explore(ctx, tier, search=False):
     nest = list(F.NEST_REQUESTS)
     history_case(ctx, F.NEST_SPEC, nest + nest, "nested-all-twice")
     for url in nest:
-        history_case(ctx, F.NEST_SPEC, [url, url], "nested-twice")
+        if tier != "quick" or search or re.search(r"(<=|>=|!=|<|>|=)", url.partition("?")[2]):
+            history_case(ctx, F.NEST_SPEC, [url, url], "nested-twice")
     inner = [u for u in nest if re.search(r"\.m\w+\.\w+(<=|>=|!=|<|>|=)", u)]
     for _ in range(12 if tier == "quick" else 120):
         urls = [rng.choice(nest) for _ in range(rng.randint(1, 6))]
@@ -458,4 +466,6 @@ def replay(payload):
         return not tr.foreign and same and out == exp
     if c["oracle"] == "schedule":
         return S.replay_case(c)
+    if c["oracle"] == "rows":
+        return R.replay(c["rows"])
     raise ValueError(c["oracle"])
